@@ -32,7 +32,8 @@ func (p *printer) IsNil() bool {
 func (p *printer) Frag(ctx context.Context) iter.Seq[string] {
 	return func(yield func(string) bool) {
 		s := &scanner.Scanner{}
-		s.Init(bytes.NewBuffer([]byte(p.fmt)))
+		// text/scanner discards one leading byte order mark: hand it one, so that the format keeps its own
+		s.Init(bytes.NewBuffer([]byte("\uFEFF" + p.fmt)))
 		s.Error = func(s *scanner.Scanner, msg string) {}
 
 		argIdx := 0
